@@ -2,6 +2,7 @@ package c19
 
 import (
 	"fmt"
+	"sort"
 
 	metav1 "k8s.io/apimachinery/pkg/apis/meta/v1"
 
@@ -30,7 +31,7 @@ func probeSpecSeam(rep *report.Report, o checks.Opts) {
 			announce("availability probe " + pr.Name + " in mode " + mode)
 			w := osw.NewWorld()
 			w.LongLived()
-			obj := world.Obj("Widget", "", "a", map[string]any{"x": int64(1)})
+			obj := world.Obj("Widget", "", "a", map[string]any{"x": int64(1), "vals": valueKinds()})
 			oso := corev1alpha1.ObjectSetObject{Object: *obj}
 			probes := []corev1alpha1.ObjectSetProbe{{Selector: pr.Sel, Probes: pr.Probes}}
 			ctrl := world.CtrlObjectSet
@@ -63,6 +64,16 @@ func probeSpecSeam(rep *report.Report, o checks.Opts) {
 	}
 }
 
+// valueKinds: one field per kind of JSON value (and equal twins of the composite ones).
+func valueKinds() map[string]any {
+	return map[string]any{
+		"int": int64(1), "int2": int64(1), "str": "1", "bool": true, "float": 1.5,
+		"list": []any{int64(1), int64(2)}, "list2": []any{int64(1), int64(2)}, "mixed": []any{int64(1), "a", map[string]any{}},
+		"map": map[string]any{"a": int64(1)}, "map2": map[string]any{"a": int64(1)}, "emptylist": []any{}, "emptymap": map[string]any{},
+		"nested": []any{[]any{int64(1)}, []any{int64(2)}},
+	}
+}
+
 type probeSpecShape struct {
 	Name   string
 	Sel    corev1alpha1.ProbeSelector
@@ -81,6 +92,17 @@ func probeSpecShapes() []probeSpecShape {
 	for _, f := range []string{"", ".", "..", ".status", ".status.x", "status.x", ".spec.x", ".a[0]", ".a[", "{.status}", ".status..x"} {
 		out = append(out, probeSpecShape{fmt.Sprintf("fieldsEqual(%q,.spec.x)", f), widget, []corev1alpha1.Probe{{FieldsEqual: &corev1alpha1.ProbeFieldsEqualSpec{FieldA: f, FieldB: ".spec.x"}}}})
 		out = append(out, probeSpecShape{fmt.Sprintf("fieldsEqual(.spec.x,%q)", f), widget, []corev1alpha1.Probe{{FieldsEqual: &corev1alpha1.ProbeFieldsEqualSpec{FieldA: ".spec.x", FieldB: f}}}})
+	}
+	// every ordered pair of JSON value kinds as the two compared fields
+	var kinds []string
+	for k := range valueKinds() {
+		kinds = append(kinds, k)
+	}
+	sort.Strings(kinds)
+	for _, a := range kinds {
+		for _, b := range kinds {
+			out = append(out, probeSpecShape{fmt.Sprintf("fieldsEqual(.spec.vals.%s,.spec.vals.%s)", a, b), widget, []corev1alpha1.Probe{{FieldsEqual: &corev1alpha1.ProbeFieldsEqualSpec{FieldA: ".spec.vals." + a, FieldB: ".spec.vals." + b}}}})
+		}
 	}
 	for _, t := range []string{"", "Ready", "a/b/c", " "} {
 		out = append(out, probeSpecShape{fmt.Sprintf("condition(type=%q,status=\"\")", t), widget, []corev1alpha1.Probe{{Condition: &corev1alpha1.ProbeConditionSpec{Type: t, Status: ""}}}})
